@@ -142,7 +142,9 @@ def recStr (buf : List UInt8) (bp : BufPos) : Option String := do
   let u ← writeUnchanged buf bp
   let n := numSeqLines bp
   let o ← ownedSeq buf bp
-  some (s!"h={hexOf h}:l={linesStr ls}:r={hexOf raw}:n={n}:b={if n = 1 then 1 else 0}:o={hexOf o}:u={hexOf u}:" ++ idDescStr h)
+  let x ← Write.faRefWrap h ls 3
+  some (s!"h={hexOf h}:l={linesStr ls}:r={hexOf raw}:n={n}:b={if n = 1 then 1 else 0}:o={hexOf o}:u={hexOf u}:" ++
+    s!"w={hexOf (Write.faRefWrite h ls)}:x={hexOf x}:" ++ idDescStr h)
 
 def ownedStr (buf : List UInt8) (bp : BufPos) : Option String := do
   let h ← head buf bp
@@ -274,7 +276,7 @@ def recStr (buf : List UInt8) (bp : BufPos) : Option String := do
   let s ← seq buf bp
   let q ← qual buf bp
   let u ← writeUnchanged buf bp
-  some (s!"h={hexOf h}:s={hexOf s}:q={hexOf q}:u={hexOf u}:" ++ idDescStr h)
+  some (s!"h={hexOf h}:s={hexOf s}:q={hexOf q}:u={hexOf u}:w={hexOf (Write.fqTo h s q)}:" ++ idDescStr h)
 
 def ownedStr (buf : List UInt8) (bp : BufPos) : Option String := do
   let h ← head buf bp
